@@ -1,5 +1,7 @@
 # coding: utf-8
 """C08 — annotations are inherited faithfully by the assembled plasmid (shared machinery with C09)."""
+EXTRA_OBLIGATION_FILES = ("Props/C08_src.v",)
+
 from harness import annot, common, gens, recutil
 from harness.props import C13
 
